@@ -10,13 +10,15 @@ import Mathlib.Tactic.Linarith
 * `C18_format_chains_bijection`  every chain position is held by exactly one (variable, individual)
   slot of the dataset, each variable once, top-level ones without / bottom-level ones with the
   individual axis — for all name lists whose top-level names do not repeat and whose bottom-level
-  names occur once per individual
-* `C18_format_chains_entry`      the slot of (name, r-th individual) holds the position whose name
-  is that name and whose ID is that individual's (hierarchical layout, any number of
-  individuals / bottom names / top names)
+  names occur once per individual (`hierNames_wellformed`, `filterNames_wellformed`: both layouts
+  chi produces satisfy these hypotheses)
+* `C18_format_chains_entry`, `C18_format_chains_entry_filter`   the slot of (name, r-th individual)
+  holds the position whose name is that name and whose ID is that individual's (hierarchical and
+  population-filter layouts, any sizes)
 * `C18_format_chains_overwrite_counterexample`   repeated top-level names lose a column
-* `C18_initial_structure_partial`, `C18_initial_structure_counterexample`, `C18_initial_structure_filter`
-* `C18_table_pairs`, `C18_readback`, `C18_roundtrip`
+* `C18_initial_structure`, `C18_initial_entry`, `C18_initial_structure_filter` (code as it is);
+  pre-fix: `C18_initial_structure_legacy_partial`, `C18_initial_structure_counterexample`
+* `C18_table_pairs`, `C18_readback`, `C18_roundtrip` (general), `C18_roundtrip_example`
 -/
 set_option linter.unusedSectionVars false
 set_option linter.unusedSimpArgs false
@@ -487,6 +489,185 @@ theorem hierNames_wellformed (bottom top : List String) (n : Nat) (hn : 0 < n)
   rw [positions_append, positions_blocks p bottom hb hpb, positions_not_mem p top hpt]
   simp
 
+/-- rows of equal length `m`: entry `i·m + j` of the flattened list is entry `j` of row `i` -/
+theorem flatten_uniform_get {α : Type} (L : List (List α)) (m : Nat) (h : ∀ l ∈ L, l.length = m)
+    (i j : Nat) (hj : j < m) : L.flatten[i * m + j]? = (L[i]?).bind (·[j]?) := by
+  induction L generalizing i with
+  | nil => simp
+  | cons l ls ih =>
+    have hl := h l List.mem_cons_self
+    cases i with
+    | zero =>
+      simp only [Nat.zero_mul, Nat.zero_add, List.flatten_cons, List.getElem?_cons_zero,
+        Option.bind_some]
+      exact List.getElem?_append_left (by omega)
+    | succ i =>
+      have hge : l.length ≤ (i + 1) * m + j := by
+        have : (i + 1) * m = i * m + m := by ring
+        omega
+      rw [List.flatten_cons, List.getElem?_append_right hge]
+      have hsub : (i + 1) * m + j - l.length = i * m + j := by
+        have : (i + 1) * m = i * m + m := by ring
+        omega
+      rw [hsub, ih (fun x hx => h x (List.mem_cons_of_mem _ hx))]
+      simp
+
+/-! ## the population-filter layout -/
+
+theorem blockIds_get (b : Nat) (ids : List String) (r j : Nat) (hr : r < ids.length) (hj : j < b) :
+    ((ids.map (fun i => List.replicate b (some i))).flatten)[r * b + j]? = some (some ids[r]) := by
+  rw [flatten_uniform_get _ b (by
+    intro l hl
+    obtain ⟨i, _, rfl⟩ := List.mem_map.mp hl
+    simp) r j hj]
+  simp [hr, hj]
+
+theorem blockIds_length (b : Nat) (ids : List String) :
+    ((ids.map (fun i => List.replicate b (some i))).flatten).length = ids.length * b := by
+  induction ids with
+  | nil => simp
+  | cons a as ih =>
+    simp only [List.map_cons, List.flatten_cons, List.length_append, List.length_replicate, ih,
+      List.length_cons]
+    ring
+
+theorem blocks_length (l : List String) (n : Nat) :
+    ((List.replicate n l).flatten).length = n * l.length := by
+  induction n with
+  | zero => simp
+  | succ n ih => rw [List.replicate_succ, List.flatten_cons, List.length_append, ih]; ring
+
+theorem not_mem_blocks (p : String) (l : List String) (n : Nat) (h : p ∉ l) :
+    p ∉ (List.replicate n l).flatten := by
+  intro hp
+  rw [List.mem_flatten] at hp
+  obtain ⟨l', hl', hpl⟩ := hp
+  rw [List.mem_replicate] at hl'
+  exact h (hl'.2 ▸ hpl)
+
+/-- **filter-posterior layout** (`top ++ bottom × n_sim ++ epsilon × n_sim`, any sizes): the dataset
+    variable of a bottom-level name `p` holds at simulated individual `r` the position
+    `r·b + j + n_top`, that of an epsilon name the position `r·e + j + n_top + n_sim·b`; at that
+    position `get_parameter_names()` says `p` and `get_id()` says `Sim. r+1` (= `ids[r]`). -/
+theorem C18_format_chains_entry_filter (top bottom eps ids : List String)
+    (hb : bottom.Nodup) (he : eps.Nodup)
+    (hbt : ∀ p ∈ bottom, p ∉ top ∧ p ∉ eps) (het : ∀ p ∈ eps, p ∉ top ∧ p ∉ bottom)
+    (r : Nat) (hr : r < ids.length) :
+    let names := filterNames top bottom eps ids.length
+    let idsFull := filterIds top.length bottom.length eps.length ids
+    (∀ p ∈ bottom,
+      let k := r * bottom.length + bottom.idxOf p + top.length
+      (positions p names)[r]? = some k ∧ (positions p names).length = ids.length ∧
+      names[k]? = some p ∧ idsFull[k]? = some (some ids[r])) ∧
+    (∀ p ∈ eps,
+      let k := r * eps.length + eps.idxOf p + (top.length + ids.length * bottom.length)
+      (positions p names)[r]? = some k ∧ (positions p names).length = ids.length ∧
+      names[k]? = some p ∧ idsFull[k]? = some (some ids[r])) := by
+  intro names idsFull
+  constructor
+  · intro p hp k
+    have hpos : positions p names
+        = (List.range ids.length).map (fun r => r * bottom.length + bottom.idxOf p + top.length) := by
+      show positions p (filterNames top bottom eps ids.length) = _
+      unfold filterNames
+      rw [positions_append, positions_append, positions_not_mem p top (hbt p hp).1,
+        positions_blocks p bottom hb hp,
+        positions_not_mem p _ (not_mem_blocks p eps _ (hbt p hp).2)]
+      simp [List.map_map, Function.comp]
+    have hj : bottom.idxOf p < bottom.length := List.idxOf_lt_length_of_mem hp
+    have hkpos : (positions p names)[r]? = some k := by rw [hpos]; simp [hr, k]
+    refine ⟨hkpos, by rw [hpos]; simp, (mem_positions p names k).mp (List.mem_of_getElem? hkpos), ?_⟩
+    show (filterIds top.length bottom.length eps.length ids)[k]? = _
+    unfold filterIds
+    have hk1 : k < (List.replicate top.length (none : Option String)
+        ++ (ids.map (fun i => List.replicate bottom.length (some i))).flatten).length := by
+      rw [List.length_append, List.length_replicate, blockIds_length]
+      have : (r + 1) * bottom.length ≤ ids.length * bottom.length := Nat.mul_le_mul_right _ hr
+      have h2 : (r + 1) * bottom.length = r * bottom.length + bottom.length := by ring
+      omega
+    rw [List.getElem?_append_left hk1, List.getElem?_append_right (by simp [k])]
+    simp only [List.length_replicate]
+    have : k - top.length = r * bottom.length + bottom.idxOf p := by omega
+    rw [this]
+    exact blockIds_get bottom.length ids r _ hr hj
+  · intro p hp k
+    have hpos : positions p names
+        = (List.range ids.length).map
+            (fun r => r * eps.length + eps.idxOf p + (top.length + ids.length * bottom.length)) := by
+      show positions p (filterNames top bottom eps ids.length) = _
+      unfold filterNames
+      rw [positions_append, positions_append, positions_not_mem p top (het p hp).1,
+        positions_not_mem p _ (not_mem_blocks p bottom _ (het p hp).2),
+        positions_blocks p eps he hp]
+      simp [List.map_map, Function.comp, blocks_length]
+    have hj : eps.idxOf p < eps.length := List.idxOf_lt_length_of_mem hp
+    have hkpos : (positions p names)[r]? = some k := by rw [hpos]; simp [hr, k]
+    refine ⟨hkpos, by rw [hpos]; simp, (mem_positions p names k).mp (List.mem_of_getElem? hkpos), ?_⟩
+    show (filterIds top.length bottom.length eps.length ids)[k]? = _
+    unfold filterIds
+    have hl1 : (List.replicate top.length (none : Option String)
+        ++ (ids.map (fun i => List.replicate bottom.length (some i))).flatten).length
+        = top.length + ids.length * bottom.length := by
+      rw [List.length_append, List.length_replicate, blockIds_length]
+    rw [List.getElem?_append_right (by rw [hl1]; simp [k]), hl1]
+    have : k - (top.length + ids.length * bottom.length) = r * eps.length + eps.idxOf p := by omega
+    rw [this]
+    exact blockIds_get eps.length ids r _ hr hj
+
+theorem mem_blocks (p : String) (l : List String) (n : Nat)
+    (h : p ∈ (List.replicate n l).flatten) : p ∈ l := by
+  rw [List.mem_flatten] at h
+  obtain ⟨l', hl', hpl⟩ := h
+  rw [List.mem_replicate] at hl'
+  exact hl'.2 ▸ hpl
+
+/-- the hypotheses of `C18_format_chains_bijection` hold for the filter-posterior layout -/
+theorem filterNames_wellformed (top bottom eps : List String) (n : Nat)
+    (hb : bottom.Nodup) (he : eps.Nodup) (ht : top.Nodup)
+    (hbt : ∀ p ∈ bottom, p ∉ top ∧ p ∉ eps) (het : ∀ p ∈ eps, p ∉ top ∧ p ∉ bottom) :
+    let names := filterNames top bottom eps n
+    (names.filter (fun p => top.contains p)).Nodup ∧
+    ∀ p ∈ bottomList top names, (positions p names).length = n := by
+  intro names
+  have hnil : ∀ (l : List String), (∀ p ∈ l, p ∉ top) →
+      (List.replicate n l).flatten.filter (fun p => top.contains p) = [] := by
+    intro l hl
+    rw [List.filter_eq_nil_iff]
+    intro a ha
+    have := hl a (mem_blocks a l n ha)
+    simpa using this
+  have hfil : names.filter (fun p => top.contains p) = top := by
+    show (filterNames top bottom eps n).filter _ = top
+    unfold filterNames
+    rw [List.filter_append, List.filter_append, hnil bottom (fun p hp => (hbt p hp).1),
+      hnil eps (fun p hp => (het p hp).1), List.append_nil, List.append_nil, List.filter_eq_self]
+    intro a ha
+    simpa using ha
+  refine ⟨by rw [hfil]; exact ht, ?_⟩
+  intro p hp
+  unfold bottomList at hp
+  rw [mem_uniq, List.mem_filter] at hp
+  have hpt : p ∉ top := by simpa using hp.2
+  have hmem : p ∈ bottom ∨ p ∈ eps := by
+    have h := hp.1
+    unfold names filterNames at h
+    rcases List.mem_append.mp h with h | h
+    · rcases List.mem_append.mp h with h | h
+      · exact absurd h hpt
+      · exact Or.inl (mem_blocks p bottom n h)
+    · exact Or.inr (mem_blocks p eps n h)
+  show (positions p (filterNames top bottom eps n)).length = n
+  unfold filterNames
+  rcases hmem with hpb | hpe
+  · rw [positions_append, positions_append, positions_not_mem p top hpt,
+      positions_blocks p bottom hb hpb,
+      positions_not_mem p _ (not_mem_blocks p eps _ (hbt p hpb).2)]
+    simp
+  · rw [positions_append, positions_append, positions_not_mem p top hpt,
+      positions_not_mem p _ (not_mem_blocks p bottom _ (het p hpe).2),
+      positions_blocks p eps he hpe]
+    simp
+
 /-! ## initial parameters -/
 
 theorem keptDims_congr (f g : SubModel → Bool) (subs : List SubModel) (cur : Nat)
@@ -525,33 +706,39 @@ theorem selectDims_length {α : Type} (dims : List Nat) (row : List α)
     rw [List.filterMap_cons, List.getElem?_eq_getElem hd]
     simp [ih (fun x hx => h x (List.mem_cons_of_mem _ hx))]
 
-theorem initRow_eq {α : Type} (legacy : Bool) (subs : List SubModel) (nIds : Nat)
+theorem kept_flatten_length {α : Type} (subs : List SubModel) (nIds : Nat)
+    (popSample : List (List α)) (hrows : popSample.length = nIds)
+    (hwidth : ∀ row ∈ popSample, row.length = (subs.map (·.nDim)).sum) :
+    ((popSample.map (selectDims (keptDims (·.special) subs 0))).flatten).length
+      = nIds * (keptDims (·.special) subs 0).length := by
+  rw [List.length_flatten, List.map_map]
+  have : ∀ row ∈ popSample, (List.length ∘ selectDims (keptDims (·.special) subs 0)) row
+      = (keptDims (·.special) subs 0).length := by
+    intro row hrow
+    simp only [Function.comp]
+    apply selectDims_length
+    intro d hd
+    have := keptDims_lt (·.special) subs 0 d hd
+    rw [hwidth row hrow]; omega
+  rw [List.map_congr_left this, List.map_const', List.sum_replicate, hrows]
+  simp
+
+/-- **initial points, the code as it is** — for every composition of population sub-models (pooled,
+    heterogeneous, covariate- or reduced-wrapped ones included), every number of individuals and
+    dimensions: every row is [for each individual, the population sample at the top values
+    restricted to the dimensions with individual-level parameters, row-major] ++ [the prior sample],
+    and has the posterior's dimension `n_ids · #kept + n_top`. -/
+theorem C18_initial_structure {α : Type} (subs : List SubModel) (nIds : Nat)
     (topSample : List α) (popSample : List (List α))
-    (hcrit : ∀ m ∈ subs, (if legacy then m.isInst else m.special) = m.special)
     (hrows : popSample.length = nIds)
     (hwidth : ∀ row ∈ popSample, row.length = (subs.map (·.nDim)).sum) :
-    initRow legacy subs nIds topSample popSample
+    initRow subs nIds topSample popSample
       = .ok ((popSample.map (selectDims (keptDims (·.special) subs 0))).flatten ++ topSample) ∧
     ((popSample.map (selectDims (keptDims (·.special) subs 0))).flatten ++ topSample).length
       = nIds * (keptDims (·.special) subs 0).length + topSample.length := by
-  have hk : keptDims (fun m => if legacy then m.isInst else m.special) subs 0
-      = keptDims (·.special) subs 0 := keptDims_congr _ _ subs 0 hcrit
-  have hlen : ((popSample.map (selectDims (keptDims (·.special) subs 0))).flatten).length
-      = nIds * (keptDims (·.special) subs 0).length := by
-    rw [List.length_flatten, List.map_map]
-    have : ∀ row ∈ popSample, (List.length ∘ selectDims (keptDims (·.special) subs 0)) row
-        = (keptDims (·.special) subs 0).length := by
-      intro row hrow
-      simp only [Function.comp]
-      apply selectDims_length
-      intro d hd
-      have := keptDims_lt (·.special) subs 0 d hd
-      rw [hwidth row hrow]; omega
-    rw [List.map_congr_left this, List.map_const', List.sum_replicate, hrows]
-    simp
+  have hlen := kept_flatten_length subs nIds popSample hrows hwidth
   constructor
   · unfold initRow
-    rw [hk]
     by_cases h0 : nIds * (keptDims (·.special) subs 0).length = 0
     · have hnil : (popSample.map (selectDims (keptDims (·.special) subs 0))).flatten = [] := by
         apply List.eq_nil_of_length_eq_zero
@@ -560,42 +747,88 @@ theorem initRow_eq {α : Type} (legacy : Bool) (subs : List SubModel) (nIds : Na
     · simp only [h0, if_false, hlen, ne_eq, not_true_eq_false]
   · rw [List.length_append, hlen]
 
-/-- **initial points, the code as it is** (`isinstance`-based removal of special dimensions): when
-    `isinstance` recognises exactly the sub-models without hierarchical dimensions, every row is
-    [for each individual, the population sample at the top values restricted to the non-special
-    dimensions, row-major] ++ [the prior sample], and has the posterior's dimension
-    `n_ids · #non-special + n_top`. -/
-theorem C18_initial_structure_partial {α : Type} (subs : List SubModel) (nIds : Nat)
-    (topSample : List α) (popSample : List (List α))
-    (hinst : ∀ m ∈ subs, m.isInst = m.special)
-    (hrows : popSample.length = nIds)
-    (hwidth : ∀ row ∈ popSample, row.length = (subs.map (·.nDim)).sum) :
-    initRow true subs nIds topSample popSample
-      = .ok ((popSample.map (selectDims (keptDims (·.special) subs 0))).flatten ++ topSample) ∧
-    ((popSample.map (selectDims (keptDims (·.special) subs 0))).flatten ++ topSample).length
-      = nIds * (keptDims (·.special) subs 0).length + topSample.length :=
-  initRow_eq true subs nIds topSample popSample (fun m hm => by simp [hinst m hm]) hrows hwidth
-
-/-- **the property as stated** (special dimensions taken from `n_hierarchical_dim() == 0`, as
-    `PopulationFilterLogPosterior` does and as `n_parameters` counts): no hypothesis on the
-    composition -/
-theorem C18_initial_structure {α : Type} (subs : List SubModel) (nIds : Nat)
+/-- **entry level**: position `i·m + j` of an initial point holds individual `i`'s population
+    sample in the `j`-th kept dimension; position `n_ids·m + t` holds the `t`-th prior sample -/
+theorem C18_initial_entry {α : Type} (subs : List SubModel) (nIds : Nat)
     (topSample : List α) (popSample : List (List α))
     (hrows : popSample.length = nIds)
-    (hwidth : ∀ row ∈ popSample, row.length = (subs.map (·.nDim)).sum) :
-    initRow false subs nIds topSample popSample
-      = .ok ((popSample.map (selectDims (keptDims (·.special) subs 0))).flatten ++ topSample) ∧
-    ((popSample.map (selectDims (keptDims (·.special) subs 0))).flatten ++ topSample).length
-      = nIds * (keptDims (·.special) subs 0).length + topSample.length :=
-  initRow_eq false subs nIds topSample popSample (fun m _ => by simp) hrows hwidth
+    (hwidth : ∀ row ∈ popSample, row.length = (subs.map (·.nDim)).sum) (row : List α)
+    (h : initRow subs nIds topSample popSample = .ok row) :
+    let dims := keptDims (·.special) subs 0
+    (∀ i j (hi : i < nIds) (hj : j < dims.length),
+      row[i * dims.length + j]? = (popSample[i]?).bind (fun r => r[dims[j]]?)) ∧
+    (∀ t, row[nIds * dims.length + t]? = topSample[t]?) := by
+  intro dims
+  have hs := (C18_initial_structure subs nIds topSample popSample hrows hwidth).1
+  rw [hs] at h
+  cases h
+  have hlen : ((popSample.map (selectDims dims)).flatten).length = nIds * dims.length :=
+    kept_flatten_length subs nIds popSample hrows hwidth
+  have hrowlen : ∀ l ∈ popSample.map (selectDims dims), l.length = dims.length := by
+    intro l hl
+    obtain ⟨r, hr, rfl⟩ := List.mem_map.mp hl
+    apply selectDims_length
+    intro d hd
+    have := keptDims_lt (·.special) subs 0 d hd
+    rw [hwidth r hr]; omega
+  constructor
+  · intro i j hi hj
+    have hlt : i * dims.length + j < ((popSample.map (selectDims dims)).flatten).length := by
+      rw [hlen]
+      have : (i + 1) * dims.length ≤ nIds * dims.length := Nat.mul_le_mul_right _ hi
+      have h2 : (i + 1) * dims.length = i * dims.length + dims.length := by ring
+      omega
+    show ((popSample.map (selectDims dims)).flatten ++ topSample)[i * dims.length + j]? = _
+    rw [List.getElem?_append_left hlt, flatten_uniform_get _ dims.length hrowlen i j hj]
+    rw [List.getElem?_map]
+    cases hp : popSample[i]? with
+    | none => rfl
+    | some r =>
+      simp only [Option.map_some, Option.bind_some]
+      -- entry j of the selected row is the dims[j]-th entry of the row
+      have hr : r ∈ popSample := List.mem_of_getElem? hp
+      have hd : dims[j] < r.length := by
+        have := keptDims_lt (·.special) subs 0 dims[j] (List.getElem_mem hj)
+        rw [hwidth r hr]; omega
+      have : ∀ (ds : List Nat) (hds : ∀ d ∈ ds, d < r.length) (j : Nat) (hj : j < ds.length),
+          (selectDims ds r)[j]? = r[ds[j]]? := by
+        intro ds
+        induction ds with
+        | nil => intro _ j hj; simp at hj
+        | cons d ds ih =>
+          intro hds j hj
+          have hdl := hds d List.mem_cons_self
+          unfold selectDims
+          rw [List.filterMap_cons, List.getElem?_eq_getElem hdl]
+          cases j with
+          | zero => simp [List.getElem?_eq_getElem hdl]
+          | succ j =>
+            simp only [List.getElem?_cons_succ, List.getElem_cons_succ]
+            exact ih (fun x hx => hds x (List.mem_cons_of_mem _ hx)) j (by simpa using hj)
+      exact this dims (fun d hd' => by
+        have := keptDims_lt (·.special) subs 0 d hd'
+        rw [hwidth r hr]; omega) j hj
+  · intro t
+    show ((popSample.map (selectDims dims)).flatten ++ topSample)[nIds * dims.length + t]? = _
+    rw [List.getElem?_append_right (by rw [hlen]; omega), hlen]
+    simp
 
-/-- Appendix A #15: a covariate-wrapped pooled model is not an instance of `PooledModel`; its
-    dimension is kept, the row is too wide for the bottom block (numpy: `ValueError`).
-    Two individuals, sub-models [wrapped pooled (1 dim), Gaussian (1 dim)]. -/
+/-- the pre-fix code (`isinstance`-based removal of special dimensions) produced that row only when
+    `isinstance` recognised exactly the sub-models without hierarchical dimensions -/
+theorem C18_initial_structure_legacy_partial {α : Type} (subs : List SubModel) (nIds : Nat)
+    (topSample : List α) (popSample : List (List α))
+    (hinst : ∀ m ∈ subs, m.isInst = m.special) :
+    initRowLegacy subs nIds topSample popSample = initRow subs nIds topSample popSample := by
+  unfold initRowLegacy initRow
+  rw [keptDims_congr (·.isInst) (·.special) subs 0 hinst]
+
+/-- pre-fix (1cc8bcf, Appendix A #15): a covariate-wrapped pooled model is not an instance of
+    `PooledModel`; its dimension was kept, the row too wide for the bottom block (numpy:
+    `ValueError`).  Two individuals, sub-models [wrapped pooled (1 dim), Gaussian (1 dim)]. -/
 theorem C18_initial_structure_counterexample :
     let subs : List SubModel := [⟨1, false, true⟩, ⟨1, false, false⟩]
-    initRow true subs 2 [10, 11, 12] [[1, 2], [3, 4]] = (.error .valueError : Except IErr (List Nat)) ∧
-    initRow false subs 2 [10, 11, 12] [[1, 2], [3, 4]] = .ok [2, 4, 10, 11, 12] := by
+    initRowLegacy subs 2 [10, 11, 12] [[1, 2], [3, 4]] = (.error .valueError : Except IErr (List Nat)) ∧
+    initRow subs 2 [10, 11, 12] [[1, 2], [3, 4]] = .ok [2, 4, 10, 11, 12] := by
   exact ⟨rfl, rfl⟩
 
 /-- filter posterior: top block, then the kept dimensions row-major per simulated individual, then
@@ -722,6 +955,156 @@ theorem C18_readback (ds : Dict) (ids : List String) (modelNames : List String)
           simp only [Except.ok.injEq] at hr
           subst hr
           exact Or.inr ⟨ks, rfl, hks⟩
+
+theorem lookup_mem (d : Dict) (p : String) (v : Sel) (h : d.lookup p = some v) : (p, v) ∈ d := by
+  induction d with
+  | nil => simp at h
+  | cons e es ih =>
+    obtain ⟨q, w⟩ := e
+    rw [List.lookup_cons] at h
+    by_cases hq : p == q
+    · simp only [hq] at h
+      have : p = q := by simpa using hq
+      subst this
+      cases h
+      exact List.mem_cons_self
+    · simp only [hq] at h
+      exact List.mem_cons_of_mem _ (ih h)
+
+theorem lookup_of_key (d : Dict) (p : String) (h : p ∈ d.map (·.1)) : ∃ v, d.lookup p = some v := by
+  induction d with
+  | nil => simp at h
+  | cons e es ih =>
+    obtain ⟨q, w⟩ := e
+    rw [List.lookup_cons]
+    by_cases hq : p == q
+    · exact ⟨w, by simp [hq]⟩
+    · simp only [hq]
+      apply ih
+      simp only [List.map_cons, List.mem_cons] at h
+      rcases h with h | h
+      · exact absurd (by simpa using h) hq
+      · exact h
+
+theorem mapM_exists {β : Type} (g : String → Except IErr β) (P : String → β → Prop)
+    (ns : List String) (h : ∀ n ∈ ns, ∃ c, g n = .ok c ∧ P n c) :
+    ∃ cols, ns.mapM g = .ok cols ∧ cols.length = ns.length ∧
+      ∀ j (hj : j < ns.length), ∃ c, cols[j]? = some c ∧ P ns[j] c := by
+  induction ns with
+  | nil => exact ⟨[], rfl, rfl, fun j hj => absurd hj (by simp)⟩
+  | cons n ns ih =>
+    obtain ⟨c, hc, hP⟩ := h n List.mem_cons_self
+    obtain ⟨cs, hcs, hl, hall⟩ := ih (fun m hm => h m (List.mem_cons_of_mem _ hm))
+    refine ⟨c :: cs, ?_, by simp [hl], ?_⟩
+    · rw [List.mapM_cons, hc, hcs]; rfl
+    · intro j hj
+      cases j with
+      | zero => exact ⟨c, rfl, hP⟩
+      | succ j =>
+        obtain ⟨c', hc', hP'⟩ := hall j (by simpa using hj)
+        exact ⟨c', by simpa using hc', by simpa using hP'⟩
+
+/-- **round trip, general** (hierarchical layout; any numbers of individuals, bottom names, top names
+    and model parameters): formatting raw chains and reading the dataset back for individual
+    `ids[r]` succeeds, and column `j` of the matrix handed to the predictive model / the likelihood
+    is a chain position `k` at which `get_parameter_names()` carries the (mapped) name of model
+    parameter `j` and `get_id()` carries either that individual or "population level". -/
+theorem C18_roundtrip (bottom top ids : List String) (hb : bottom.Nodup) (ht : top.Nodup)
+    (hdis : ∀ p ∈ bottom, top.contains p = false) (hids : ids.Nodup)
+    (modelNames : List String) (pm : List (String × String)) (r : Nat) (hr : r < ids.length)
+    (hnames : ∀ m ∈ modelNames, mapName pm m ∈ bottom ∨ mapName pm m ∈ top) :
+    let names := hierNames bottom top ids.length
+    let idsFull := hierIds bottom.length top.length ids
+    ∃ ds cols, formatChains names top ids.length = .ok ds ∧
+      readback ds ids modelNames pm (some ids[r]) = .ok cols ∧ cols.length = modelNames.length ∧
+      ∀ j (hj : j < modelNames.length), ∃ k, cols[j]? = some k ∧
+        names[k]? = some (mapName pm modelNames[j]) ∧
+        (idsFull[k]? = some (some ids[r]) ∨ idsFull[k]? = some none) := by
+  intro names idsFull
+  have hn : 0 < ids.length := by omega
+  obtain ⟨hw1, hw2⟩ := hierNames_wellformed bottom top ids.length hn hb ht hdis
+  obtain ⟨ds, hds, _, hkeys, hslots, _⟩ :=
+    C18_format_chains_bijection names top ids.length hw1 hw2
+  have hidx : ids.idxOf? ids[r] = some r := by
+    rw [List.idxOf?_eq_some_iff]
+    refine ⟨hr, rfl, fun j hj heq => ?_⟩
+    have := (hids.getElem_inj_iff (hi := by omega) (hj := hr)).mp heq
+    omega
+  have hBlen : ((List.replicate ids.length bottom).flatten).length = ids.length * bottom.length :=
+    blocks_length bottom ids.length
+  have hone : ∀ m ∈ modelNames, ∃ k, readVar ds (some r) (mapName pm m) = .ok k ∧
+      names[k]? = some (mapName pm m) ∧
+      (idsFull[k]? = some (some ids[r]) ∨ idsFull[k]? = some none) := by
+    intro m hm
+    rcases hnames m hm with hq | hq
+    · -- bottom-level name
+      have hqn : mapName pm m ∈ names := by
+        show mapName pm m ∈ hierNames bottom top ids.length
+        unfold hierNames
+        apply List.mem_append_left
+        rw [List.mem_flatten]
+        exact ⟨bottom, List.mem_replicate.mpr ⟨by omega, rfl⟩, hq⟩
+      obtain ⟨v, hv⟩ := lookup_of_key ds _ ((hkeys _).mpr hqn)
+      obtain ⟨_, hmany⟩ := hslots _ v (lookup_mem ds _ v hv)
+      obtain ⟨hveq, _⟩ := hmany (hdis _ hq)
+      obtain ⟨hk, _, hname, hid⟩ := C18_format_chains_entry bottom top ids hb hdis _ hq r hr
+      refine ⟨r * bottom.length + bottom.idxOf (mapName pm m), ?_, hname, Or.inl hid⟩
+      unfold readVar
+      rw [hv, hveq]
+      simp only
+      rw [hk]
+    · -- population-level name
+      have hqn : mapName pm m ∈ names := by
+        show mapName pm m ∈ hierNames bottom top ids.length
+        unfold hierNames
+        exact List.mem_append_right _ hq
+      have hc : top.contains (mapName pm m) = true := by simpa using hq
+      obtain ⟨v, hv⟩ := lookup_of_key ds _ ((hkeys _).mpr hqn)
+      obtain ⟨hone', _⟩ := hslots _ v (lookup_mem ds _ v hv)
+      obtain ⟨k, hveq, hname⟩ := hone' hc
+      refine ⟨k, ?_, hname, Or.inr ?_⟩
+      · unfold readVar; rw [hv, hveq]
+      · -- a position carrying a top-level name lies behind the bottom block
+        have hklt : k < names.length := (List.getElem?_eq_some_iff.mp hname).1
+        have hnl : names.length = ids.length * bottom.length + top.length := by
+          show (hierNames bottom top ids.length).length = _
+          unfold hierNames
+          rw [List.length_append, hBlen]
+        have hge : ids.length * bottom.length ≤ k := by
+          by_contra hlt
+          have hlt' : k < ((List.replicate ids.length bottom).flatten).length := by
+            rw [hBlen]; omega
+          have : names[k]? = ((List.replicate ids.length bottom).flatten)[k]? := by
+            show (hierNames bottom top ids.length)[k]? = _
+            unfold hierNames
+            exact List.getElem?_append_left hlt'
+          rw [this] at hname
+          have hmemB := List.mem_of_getElem? hname
+          have hqb := mem_blocks _ bottom _ hmemB
+          have := hdis _ hqb
+          rw [hc] at this
+          cases this
+        show (hierIds bottom.length top.length ids)[k]? = some none
+        unfold hierIds
+        rw [List.getElem?_append_right (by rw [blockIds_length]; exact hge), blockIds_length]
+        rw [List.getElem?_replicate]
+        have : k - ids.length * bottom.length < top.length := by omega
+        simp [this]
+  obtain ⟨cols, hcols, hlen, hall⟩ := mapM_exists (readVar ds (some r))
+    (fun n k => names[k]? = some n ∧
+      (idsFull[k]? = some (some ids[r]) ∨ idsFull[k]? = some none))
+    (modelNames.map (mapName pm)) (by
+      intro n hn'
+      obtain ⟨m, hm, rfl⟩ := List.mem_map.mp hn'
+      exact hone m hm)
+  refine ⟨ds, cols, hds, ?_, by simpa using hlen, ?_⟩
+  · unfold readback
+    simp only [hidx]
+    exact hcols
+  · intro j hj
+    obtain ⟨c, hc, hP⟩ := hall j (by simpa using hj)
+    refine ⟨c, hc, ?_⟩
+    simpa using hP
 
 /-- non-vacuity / round trip on a concrete hierarchical layout: two individuals, bottom names
     `psi0`, `Sigma`, population names `Mean Dim. 1`, `Std. Dim. 1`, `Pooled Dim. 2`; the model
